@@ -129,8 +129,17 @@ def _shape(run, prog, W):
             size_guard = [g for g in ctx.guards if g[0] == "cmp" and g[1] == "==" and g[2][0] == "attr" and g[2][2] == "size"
                           and const_value(g[3]) == 1]
             arr = size_guard[0][2][1] if size_guard else None
+            flat_view = None
+            if not size_guard:
+                # `len(y.reshape(-1)) == 1` / `len(y.flatten()) == 1`: the number of entries of the flattened output
+                for g in ctx.guards:
+                    if g[0] == "cmp" and g[1] == "==" and g[2][0] == "fn" and g[2][1] == "len" and len(g[2][2]) == 1 and \
+                            const_value(g[3]) == 1:
+                        for a in (p, ("fn", "asarray", (p,))):
+                            if _is_flat(g[2][2][0], a):
+                                size_guard, arr, flat_view = [g], a, g[2][2][0]
             total = inner is not None and arr is not None and (
-                (inner[0] == "res" and inner[2] == ".item" and inner[3] == (arr,)) or
+                (inner[0] == "res" and inner[2] == ".item" and inner[3] in ((arr,), (flat_view,))) or
                 (inner[0] == "sub" and const_value(inner[2]) == 0 and _is_flat(inner[1], arr)))
             arr_ok = arr is not None and (arr == p or (arr[0] == "fn" and arr[1] == "asarray" and arr[2] and arr[2][0] == p))
             if not size_guard:
